@@ -21,7 +21,10 @@ LEVEL_NOTE = ('the same functional contract is proved under every configuration 
               'acceptance is checked with clang++/g++ -fsyntax-only; GCC code generation and -O3 are not covered')
 
 SOURCES = ['c01', 'c02', 'c03', 'c04', 'c05', 'c08', 'c14', 'c16', 'c17', 'c18', 'c19', 'c20']
-MACROS = ['FASTOR_USE_HADD', 'FASTOR_USE_VECTORISED_EXPR_ASSIGN', 'FASTOR_MATMUL_OUTER_BLOCK_SIZE=3', 'FASTOR_MATMUL_INNER_BLOCK_SIZE=3',
+# tuning macros under which the contracts are re-enforced.  FASTOR_USE_HADD and FASTOR_DONT_PERFORM_OP_MIN reject every
+# program on this tree (recorded acceptance findings), so they appear in the acceptance matrix only.
+ACCEPT_ONLY_MACROS = ['FASTOR_USE_HADD', 'FASTOR_DONT_PERFORM_OP_MIN', 'FASTOR_DONT_VECTORISE']
+MACROS = ['FASTOR_USE_VECTORISED_EXPR_ASSIGN', 'FASTOR_MATMUL_OUTER_BLOCK_SIZE=3', 'FASTOR_MATMUL_INNER_BLOCK_SIZE=3',
           'FASTOR_TRANS_OUTER_BLOCK_SIZE=3', 'FASTOR_TRANS_INNER_BLOCK_SIZE=3', 'FASTOR_NO_ALIAS=0', 'FASTOR_ZERO_INITIALISE']
 
 def base_cases(seed, per_module):
@@ -91,6 +94,7 @@ def cases(tier, seed):
     for c in base:
         for cfg in grid(tier, rng, c.mode):
             if cfg.key() == c.cfg.key(): continue
+            if c.cfg.std == 'c++17' and cfg.std != 'c++17': continue      # unit uses a C++17-only API form (explicit-output einsum): acceptance matrix reports it
             cc = reinstantiate(c, cfg)
             if cc.cid in seen: continue
             seen.add(cc.cid); out.append(cc)
@@ -107,7 +111,7 @@ def acceptance(tier, seed_cases):
     named = [('w%d' % i, c) for i, c in enumerate(seed_cases)]
     # one TU with all sampled entries (acceptance is per TU; a rejection is then narrowed down per entry)
     cfgs = [Cfg(i, s) for i in ALL_ISAS for s in ('c++14', 'c++17')]
-    cfgs += [Cfg('avx2', 'c++14', macros=(m,)) for m in MACROS + ['FASTOR_DONT_PERFORM_OP_MIN', 'FASTOR_DONT_VECTORISE']]
+    cfgs += [Cfg('avx2', 'c++14', macros=(m,)) for m in MACROS + ACCEPT_ONLY_MACROS]
     if tier == 'thorough':
         cfgs += [Cfg(i, 'c++14', checks=True) for i in ALL_ISAS]
     jobs = []
@@ -127,12 +131,15 @@ def acceptance(tier, seed_cases):
     byunit = {}
     for name, c, cfg, comp, rc, msg, cmd in res:
         byunit.setdefault(c.cid, []).append((cfg, comp, rc, msg, cmd))
-    viol = []
+    # a configuration (flags, compiler) is reported when it rejects a unit that some other configuration accepts
+    bycfg = {}
     for cid, rs in byunit.items():
         ok = [r for r in rs if r[2] == 0]; bad = [r for r in rs if r[2] != 0]
         if ok and bad:
-            viol.append({'unit': cid, 'accepted_in': len(ok), 'rejected_in': [{'config': r[0].tag(), 'compiler': r[1], 'command': r[4], 'diagnostic': r[3][-600:]} for r in bad[:6]],
-                         'rejected_configs': sorted({r[0].tag() + ' ' + r[1] for r in bad})})
+            for r in bad:
+                key = r[0].tag() + ' ' + r[1]
+                bycfg.setdefault(key, []).append({'unit': cid, 'command': r[4], 'diagnostic': r[3][-500:]})
+    viol = [{'config': k, 'rejected_units': v} for k, v in sorted(bycfg.items())]
     shutil.rmtree(work, ignore_errors=True)
     return {'acceptance_compiles': len(res), 'acceptance_units': len(byunit), 'acceptance_configs': len(cfgs), 'acceptance_rejections': len(viol)}, viol
 
@@ -142,9 +149,10 @@ def post_run(tier, seed):
     summary, viol = acceptance(tier, base)
     out = []
     for v in viol:
-        out.append({'case': 'C06/accept/' + v['unit'].rsplit('/', 1)[0],
-                    'names': ['rejected under ' + r for r in v['rejected_configs']],
-                    'replay': {'property': 'C06', 'kind': 'acceptance: unit accepted in %d configuration/compiler pairs but rejected in others' % v['accepted_in'],
-                               'unit': v['unit'], 'rejections': v['rejected_in'], 'verdict': 'compiler diagnostics reproduced (supporting static fact)'}})
+        units = [u['unit'].rsplit('/', 1)[0] for u in v['rejected_units']]
+        out.append({'case': 'C06/accept/' + v['config'].replace(' ', '/'),
+                    'names': ['rejects ' + u for u in units],
+                    'replay': {'property': 'C06', 'kind': 'acceptance: this configuration/compiler rejects %d unit(s) that other configurations accept' % len(units),
+                               'config': v['config'], 'rejections': v['rejected_units'][:8], 'verdict': 'compiler diagnostics reproduced (supporting static fact)'}})
     summary['acceptance_note'] = 'clang++-14 and g++ -fsyntax-only of every sampled unit under 6 ISAs x 2 standards + one tuning macro at a time; supporting static fact, not a proof'
     return summary, out
